@@ -897,8 +897,8 @@ func (g *xgen) gen(k xkind, d int) *xe {
 // one representative operand per value kind and notable value
 func (g *xgen) operandPool() []*xe {
 	return []*xe{
-		xRef("u"), xNull(), xBool(true), xBool(false), xIntLit(0), xIntLit(3), xIntLit(-7), xRef("i1"),
-		xFloatLit(g.r, 0), xFloatLit(g.r, 2.5), xFloatLit(g.r, 3), xRef("f1"), xStr(g.st, ""), xStr(g.st, "ab"), xStr(g.st, "3"), xRef("s1"),
+		xRef("u"), xNull(), xBool(true), xBool(false), xIntLit(0), xIntLit(2), xIntLit(3), xIntLit(-7), xRef("i1"),
+		xFloatLit(g.r, 0), xFloatLit(g.r, 2.5), xFloatLit(g.r, 3), xFloatLit(g.r, -7.5), xRef("f1"), xStr(g.st, ""), xStr(g.st, "ab"), xStr(g.st, "3"), xRef("s1"),
 		xList(), xList(xIntLit(1)), xRef("l1"), xMap(nil, nil), xRef("m1"),
 	}
 }
@@ -1113,6 +1113,33 @@ func (g *xgen) specialFloats() []*xe {
 			xTern(x(), xStr(g.st, "y"), xStr(g.st, "n")), xBin("eq", x(), x()), xBin("ne", x(), xIntLit(0)), xBin("lt", x(), xIntLit(1)),
 			xBin("ge", x(), x()), xBin("add", xStr(g.st, "s"), x()), xNeg(x()), xElvis(x(), xIntLit(1)), xCall("isNonnull", x()),
 			xBin("eq", x(), xFloatLit(nil, 0)), xList(x()), xCall("min", x(), xFloatLit(nil, 0)), xCall("max", xFloatLit(nil, 0), x()))
+	}
+	return out
+}
+
+// the operand that must not be evaluated has no value: evaluation order and short-circuiting become visible
+func (g *xgen) shortCircuit() []*xe {
+	bad := []func() *xe{
+		func() *xe { return xBin("lt", xIntLit(1), xStr(g.st, "a")) },
+		func() *xe { return xBin("mod", xIntLit(1), xIntLit(0)) },
+		func() *xe { return xRef("s1", aKey(false, "x")) },
+		func() *xe { return xCall("length", xIntLit(3)) },
+		func() *xe { return xNeg(xRef("u")) },
+	}
+	falsy := []func() *xe{func() *xe { return xBool(false) }, func() *xe { return xIntLit(0) }, func() *xe { return xStr(g.st, "") }, func() *xe { return xNull() },
+		func() *xe { return xRef("u") }, func() *xe { return xFloatLit(nil, 0) }}
+	truthy := []func() *xe{func() *xe { return xBool(true) }, func() *xe { return xIntLit(5) }, func() *xe { return xStr(g.st, "0") }, func() *xe { return xList() },
+		func() *xe { return xRef("m1") }, func() *xe { return xFloatLit(nil, 0.5) }}
+	var out []*xe
+	for _, b := range bad {
+		for _, f := range falsy {
+			out = append(out, xBin("and", f(), b()), xBin("or", f(), b()), xTern(f(), b(), xIntLit(2)), xTern(f(), xIntLit(1), b()), xBin("and", b(), f()))
+		}
+		for _, t := range truthy {
+			out = append(out, xBin("or", t(), b()), xBin("and", t(), b()), xTern(t(), xIntLit(1), b()), xTern(t(), b(), xIntLit(2)), xElvis(t(), b()), xBin("or", b(), t()))
+		}
+		out = append(out, xElvis(xNull(), b()), xElvis(xRef("u"), b()), xElvis(b(), xIntLit(1)), xRef("n", aExpr(true, b())), xRef("l1", aExpr(true, b())),
+			xList(xIntLit(1), b()), xCall("isNonnull", b()), xBin("eq", b(), b()))
 	}
 	return out
 }
